@@ -1077,6 +1077,41 @@ func overLimitInputs(d *decoder, rng *rand.Rand) [][]byte {
 		mk(func(a *protobuf.Allocation) { // a 129-byte balance
 			a.Balances.Balances[0].Balance[0] = rep([]byte{0x81}, 129)
 		})
+		lockedWith := func(n int) func(a *protobuf.Allocation) { // one locked sub-allocation with an n-byte balance
+			return func(a *protobuf.Allocation) {
+				bal := &protobuf.Balance{}
+				for range a.Assets {
+					bal.Balance = append(bal.Balance, []byte{1})
+				}
+				bal.Balance[len(bal.Balance)-1] = rep([]byte{0x81}, n)
+				a.Locked = []*protobuf.SubAlloc{{Id: rep([]byte{9}, 32), Bals: bal, IndexMap: &protobuf.IndexMap{}}}
+			}
+		}
+		mk(lockedWith(129))
+		mk(lockedWith(1000))
+		mk(func(a *protobuf.Allocation) { // a locked sub-allocation with limit+1 balances
+			bal := &protobuf.Balance{}
+			for i := 0; i < L+1; i++ {
+				bal.Balance = append(bal.Balance, []byte{1})
+			}
+			a.Locked = []*protobuf.SubAlloc{{Id: rep([]byte{9}, 32), Bals: bal, IndexMap: &protobuf.IndexMap{}}}
+		})
+		if p := strings.HasSuffix(d.name, "/LedgerChannelProposal"); p {
+			// an over-long big integer in the funding agreement
+			env := d.codec.Gen(rng, gen.MsgOpts{Small: true}).(*wire.Envelope)
+			var buf bytes.Buffer
+			if codecs.Proto.Encode(&buf, env) == nil {
+				var pe protobuf.Envelope
+				if proto.Unmarshal(buf.Bytes()[2:], &pe) == nil {
+					if fa := pe.GetLedgerChannelProposalMsg().GetBaseChannelProposal().GetFundingAgreement(); fa != nil && len(fa.Balances) > 0 && len(fa.Balances[0].Balance) > 0 {
+						fa.Balances[0].Balance[0] = rep([]byte{0x81}, 129)
+						if data, err := proto.Marshal(&pe); err == nil && len(data) <= 0xffff {
+							out = append(out, cat([]byte{byte(len(data) >> 8), byte(len(data))}, data))
+						}
+					}
+				}
+			}
+		}
 	}
 	return out
 }
